@@ -440,6 +440,16 @@ func init() {
 		return []Val{{T: app("bech32_addr", a[0].T), S: fc.U.opaque("Addr"), GoT: fc.resT(e)}}
 	}
 	I["github.com/cosmos/cosmos-sdk/types.MustAccAddressFromBech32"] = must
+	I["(encoding/binary.bigEndian).PutUint64"] = func(fc *FCtx, st *State, e *ast.CallExpr, r *Val, a []Val) []Val {
+		// writes the 8-byte big-endian encoding into the first 8 bytes of the slice (in place)
+		fc.u64be()
+		b := fc.toBz(a[0])
+		fc.panicCheck(st, "BigEndian.PutUint64-short", fmt.Sprintf("(>= (bz_len %s) 8)", b), e.Pos())
+		nb := fc.U.Fresh("put64", fc.U.BzSort())
+		st.assume(fmt.Sprintf("(and (= (bz_len %s) (bz_len %s)) (= (bz_cap %s) (bz_cap %s)) (not (= %s bz_nil)) (= (u64of %s) %s) (=> (= (bz_len %s) 8) (= %s (u64be %s))))", nb, b, nb, b, nb, nb, a[1].T, b, nb, a[1].T))
+		fc.assignOut(e.Args[0], Val{T: nb, S: a[0].S, GoT: a[0].GoT}, st)
+		return nil
+	}
 	I["(encoding/binary.bigEndian).Uint64"] = func(fc *FCtx, st *State, e *ast.CallExpr, r *Val, a []Val) []Val {
 		fc.u64be()
 		b := fc.toBz(a[0])
